@@ -3,6 +3,8 @@ package main
 import (
 	"bytes"
 
+	"github.com/benhoyt/goawk/lexer"
+
 	"github.com/benhoyt/goawk/parser"
 )
 
@@ -58,3 +60,28 @@ func VerifC03DanglingExponent() {
 		showSourceLine(src, pe.Position)
 	}
 }
+
+// the CLI's error display on long lines: every (line, column) that exists in the source can be shown
+func VerifC03ShowLongLine() {
+	n := []int{0, 1, 199, 200, 201, 203, 260, 1000}[verifIntRange(0, 7)]
+	line := make([]byte, n)
+	for i := range line {
+		line[i] = 'x'
+	}
+	if n > 2 {
+		line[1] = '\t'
+		line[n-1] = 0xC3 // a truncated multi-byte character at the end
+	}
+	src := append(append([]byte("BEGIN {\n"), line...), '\n')
+	// columns: the first few, around the 200-byte mark, and the last few (case split)
+	cols := []int{1, 2, 3, 199, 200, 201, 202, 203, 204, n - 1, n, n + 1}
+	col := cols[verifIntRange(0, len(cols)-1)]
+	if col < 1 || col > n+1 {
+		return
+	}
+	showSourceLine(src, lexerPosition(2, col)) // must not panic
+	verifAssert(true, "shown")
+	verifReach("shown")
+}
+
+func lexerPosition(line, col int) lexer.Position { return lexer.Position{Line: line, Column: col} }
